@@ -365,6 +365,29 @@ def check_sparse_on_failure(ck, prog):
           key="SPARSE:final-hole-on-failure")
 
 
+def check_position_probe(ck, prog):
+    """Sparse output to an existing regular stdout is allowed only if writing starts at the end of the file.  The probe
+    compares the CURRENT offset with st_size: `lseek(STDOUT_FILENO, 0, SEEK_CUR) != st_size`.  lseek(..., 0, SEEK_END)
+    would always equal st_size and, worse, moves the offset: output then lands behind data that should be overwritten."""
+    f = prog.fn("io_open_dest_real", FIO, target="xz")
+    ck.saw_function(f)
+    probes = []
+    for b in f.blocks.values():
+        if b.term and "cond" in b.term and "st_size" in ex.show(b.term["cond"]):
+            for c in ex.calls(b.term["cond"]):
+                if c.get("fn") == "lseek" and len(c["args"]) == 3:
+                    probes.append((c, ex.const_val(c["args"][1]), ex.const_val(c["args"][2])))
+    if not probes:
+        raise AnalysisBroken("io_open_dest_real: the lseek() probe compared with st_size was not found")
+    ok = all(off == 0 and wh == 1 for (c, off, wh) in probes)
+    ck.ob("C18-SPARSE", "position-probe", ok, common.where(f, probes[0][0]),
+          "io_open_dest_real: the offset compared with st_size is lseek(fd, 0, SEEK_CUR)" if ok else
+          "io_open_dest_real(): the `writing starts at the end of the file?` probe is lseek(fd, %s, whence=%s) instead of "
+          "lseek(fd, 0, SEEK_CUR): it no longer reads the current offset (with SEEK_END it always equals st_size and moves the "
+          "offset to the end), so output to a stdout positioned inside an existing file is written at the wrong place" % (
+              probes[0][1], probes[0][2]), key="SPARSE:position-probe")
+
+
 def check_decflags(ck, prog):
     """xz must hand over everything the library decodes before an error (xzdec and `xz -dc` agree byte for byte up to the
     error): it must not ask the threaded decoder to fail fast, and it asks for exactly the documented flags."""
@@ -471,8 +494,10 @@ def run(ck):
     check_sparse(ck, prog)
     check_is_sparse(ck, prog)
     check_sparse_on_failure(ck, prog)
+    check_position_probe(ck, prog)
     check_decflags(ck, prog)
     check_fmt(ck, prog)
     # "a file is created only from a completely valid input": coder_normal's success rules (shared with C17)
     from . import C17
     C17.check_fail(ck, prog)
+    C17.check_perfile(ck, prog)
